@@ -384,6 +384,10 @@ def run(cx, tier='quick'):
             rep.checked.append(('SHORT', i, v))
             rep.counts['SHORT'] = rep.counts.get('SHORT', 0) + 1
     check_merge(cx, facts, rep)
+    # state of one request that outlives it (a `method` declared outside the loop over the `Into(..)` requests of a field) makes the
+    # result depend on the order in which the requests are written: the scope rule, over the attribute parsers
+    from .scope import check_scopes
+    check_scopes(cx, rep, ['::models::'])
     rep.floor('SHORT', 30)
     rep.floor('MERGE', 2)
     rep.assumptions += ['two accepted spellings that reach the same helper arm denote the same syn value (LitInt, Ident, Path parsing is syn\'s)']
